@@ -319,7 +319,16 @@ func (in *Interp) get(fr *frame, v ssa.Value) Val {
 	return Sym{Op: "opaque", Name: "?" + v.Name()}
 }
 
+// FieldNameHook, when set, names field i of struct type t (used to keep the names the pinned tree
+// had for renamed fields). An empty result means: use the declared name.
+var FieldNameHook func(t types.Type, i int) string
+
 func fieldName(t types.Type, i int) string {
+	if FieldNameHook != nil {
+		if n := FieldNameHook(t, i); n != "" {
+			return n
+		}
+	}
 	if p, ok := t.Underlying().(*types.Pointer); ok {
 		t = p.Elem()
 	}
